@@ -35,6 +35,10 @@ pub struct Scn {
     /// that every repetition replaces) instead of wrapping it in a block
     #[serde(default)]
     pub unwrapped: bool,
+    /// across-runs form only: before every repetition the host registers the internal module
+    /// `lib:util` again (same specifier, same text), as a host does that hands per-run settings over
+    #[serde(default)]
+    pub reregister_lib: bool,
 }
 
 pub struct C14;
@@ -70,6 +74,9 @@ impl Check for C14 {
         let holes = if inside { 0 } else if rng.chance(0.4) { 1 + rng.below(2) } else { 0 };
         let mut cfg = GenCfg::swarm(rng, holes);
         cfg.size = 4 + rng.below(25);
+        if !inside && rng.chance(0.3) {
+            cfg.f_lib = true;
+        }
         if inside {
             // KF-C14-3 (open): break/continue leaving a block scope leaks that scope until the run ends
             cfg.f_break = false;
@@ -116,7 +123,8 @@ impl Check for C14 {
                 "const vtop{long}: any = [{{ t: 1 }}, {{ t: 2, l: [{{}}] }}]; let vcount{long}: number = 0; function vtopfn{long}(): any {{ vcount{long} += 1; return vtop{long}.length + vcount{long}; }} class VTop{long} {{ n: any = vtopfn{long}(); }} __log.push(\"top:\" + new VTop{long}().n);"
             )));
         }
-        Scn { case, form, gc, tape: Tape::random(rng, 8), fuel: 400_000, unwrapped }
+        let reregister_lib = !inside && rng.chance(0.3);
+        Scn { case, form, gc, tape: Tape::random(rng, 8), fuel: 400_000, unwrapped, reregister_lib }
     }
 
     fn generate_stream(&self, stream: &str, rng: &mut Rng, idx: usize, tier: Tier) -> Scn {
@@ -146,10 +154,10 @@ impl Check for C14 {
                 case.answers.insert(format!("{}", 7000 + i), Answer::Value(json!(i)));
             }
             let gc = GcSched { force_at_suspend: true, ..GcSched::threshold(*rng.pick(&[0u32, 1, 3, 100])) };
-            return Scn { case, form: Form::InsideRun { iterations }, gc, tape: Tape::random(rng, 8), fuel: 600_000, unwrapped: false };
+            return Scn { case, form: Form::InsideRun { iterations }, gc, tape: Tape::random(rng, 8), fuel: 600_000, unwrapped: false, reregister_lib: false };
         }
         let gc = if rng.chance(0.5) { GcSched::off() } else { random_gc(rng) };
-        Scn { case: e.to_case(), form: Form::AcrossRuns { reps: 6 + rng.below(7) as u32 }, gc, tape: Tape::random(rng, 8), fuel: 400_000, unwrapped: rng.chance(0.3) }
+        Scn { case: e.to_case(), form: Form::AcrossRuns { reps: 6 + rng.below(7) as u32 }, gc, tape: Tape::random(rng, 8), fuel: 400_000, unwrapped: rng.chance(0.3), reregister_lib: false }
     }
 
     fn shrink(&self, scn: &Scn) -> Vec<Scn> {
@@ -162,6 +170,9 @@ impl Check for C14 {
         }
         if scn.unwrapped {
             out.push(Scn { unwrapped: false, ..scn.clone() });
+        }
+        if scn.reregister_lib {
+            out.push(Scn { reregister_lib: false, ..scn.clone() });
         }
         for c in scn.case.shrink_tree() {
             out.push(Scn { case: c, ..scn.clone() });
@@ -178,6 +189,9 @@ impl Check for C14 {
         match scn.form {
             Form::AcrossRuns { reps } => {
                 for _ in 0..reps {
+                    if scn.reregister_lib {
+                        h.interp.register_internal_module(tsrun::InternalModule::source("lib:util".to_string(), crate::host::LIB_UTIL.to_string()));
+                    }
                     let mut spec = scn.case.spec(Driver::Step, scn.gc.clone(), scn.tape.clone(), scn.fuel);
                     if !scn.unwrapped {
                         spec.source = block_wrapped_source(&scn.case);
@@ -190,6 +204,35 @@ impl Check for C14 {
                 }
                 if results.iter().any(|r| r.starts_with("error:")) {
                     rep.bump("histories_with_failing_runs", 1);
+                }
+                // exactness: what survives the host's collect() after a run is the reachable set,
+                // which cannot depend on WHEN collections ran during the run. Replay the history
+                // on a second interpreter with automatic collection off and compare the counts.
+                if !scn.gc.is_off() {
+                    tsrun::verif::set_gc_decider(None);
+                    let mut h2 = new_interp(0, 1);
+                    let mut lives_off: Vec<u64> = Vec::new();
+                    for _ in 0..reps {
+                        if scn.reregister_lib {
+                            h2.interp.register_internal_module(tsrun::InternalModule::source("lib:util".to_string(), crate::host::LIB_UTIL.to_string()));
+                        }
+                        let mut spec = scn.case.spec(Driver::Step, GcSched::off(), scn.tape.clone(), scn.fuel);
+                        if !scn.unwrapped {
+                            spec.source = block_wrapped_source(&scn.case);
+                        }
+                        spec.path = None;
+                        let _ = run_to_end(&mut h2, spec);
+                        h2.interp.collect();
+                        lives_off.push(h2.interp.gc_stats().live_objects as u64);
+                    }
+                    rep.bump("schedule_independence_comparisons", 1);
+                    if lives_off != lives && !results.iter().any(|r| r.starts_with("error:SyntaxError") || r == "fuel") {
+                        rep.fail(Failure::new(
+                            "live_objects_after_collect_depend_on_collection_schedule",
+                            format!("{:?} vs {:?}", &lives[..lives.len().min(4)], &lives_off[..lives_off.len().min(4)]),
+                            json!({"with_schedule": lives, "collection_off_during_runs": lives_off, "schedule": scn.gc, "results": results, "tags": scn.case.tags}),
+                        ));
+                    }
                 }
             }
             Form::InsideRun { .. } => {
